@@ -65,7 +65,11 @@ func parseCommand(c *updateContext, entry sm.Entry) (command, error) {
 	if err := cmd.UnmarshalVTUnsafe(entry.Cmd); err != nil {
 		return commandDummy{}, err
 	}
-	c.leaderIndex = cmd.LeaderIndex
+	// Keep the leader index of the last entry that carried one, an entry without it must not
+	// erase the index recorded by an earlier entry of the same batch.
+	if cmd.LeaderIndex != nil {
+		c.leaderIndex = cmd.LeaderIndex
+	}
 	return wrapCommand(cmd), nil
 }
 
